@@ -11,7 +11,10 @@ ENGINES = [
 ]
 CHECKS = {}
 
-DEEP = "S0a1p0"
+# thorough: length 7 for the handler pattern with a running arbitration in the start state "just opened",
+# length 6 for the other handler-pattern combinations and for the two other patterns with a running
+# arbitration in S0/S1, length 5 for the remaining 8 combinations (as in quick)
+DEEP = "S0a1p0:7,S0a0p0:6,S1a0p0:6,S1a1p0:6,S2a0p0:6,S2a1p0:6,S0a1p1:6,S0a1p2:6,S1a1p1:6,S1a1p2:6"
 
 CHECKS["C14"] = {
     "engine": "enhmc", "design_ref": "5/C14",
@@ -47,9 +50,9 @@ CHECKS["C14"] = {
         "harness": "c14_framing", "sources": SRC, "deps": DEPS, "variant": "plain",
         "quick": {"parts": 16, "args": ["--len", 5, "--xval", 4], "deadline": 400,
                   "bounds": "streams <= 5 bytes for all 18 mode combinations; merge validation <= 4; transport search depth 20 (hashed) / 5-6 (unhashed)"},
-        "thorough": {"parts": 16, "args": ["--len", 6, "--deep", 7, "--deepmodes", DEEP, "--xval", 4], "deadline": 6000,
-                     "bounds": "streams <= 7 bytes for the handler pattern in start state S0 with a running arbitration (mode S0a1p0), <= 6 for "
-                               "all 18 mode combinations; merge validation <= 4; transport search depth 20 (hashed) / 6-7 (unhashed)"},
+        "thorough": {"parts": 16, "args": ["--len", 5, "--deepmodes", DEEP, "--xval", 4], "deadline": 6000,
+                     "bounds": "streams <= 7 bytes for mode S0a1p0 (handler pattern, arbitration running, just opened), <= 6 for the other five "
+                               "handler-pattern combinations and for S0a1p1 S0a1p2 S1a1p1 S1a1p2, <= 5 for the remaining 8 combinations; merge validation <= 4; transport search depth 20 (hashed) / 6-7 (unhashed)"},
     }],
 }
 
